@@ -2424,6 +2424,21 @@ func ruleWIN3(c *Ctx) []Ob {
 						if named != nil && c.nodeKind(named) == "window" {
 							continue
 						}
+						// a field of a struct that is itself a field of the window node (its counters kept together)
+						inWindow := false
+						for a, i := x.Addr, 0; i < 4; i++ {
+							fa, ok := a.(*ssa.FieldAddr)
+							if !ok {
+								break
+							}
+							if _, _, nn := fieldOfAddr(fa); nn != nil && c.nodeKind(nn) == "window" {
+								inWindow = true
+							}
+							a = fa.X
+						}
+						if inWindow {
+							continue
+						}
 						if al, isAlloc := x.Addr.(*ssa.Alloc); isAlloc {
 							// a local variable: follow its loads
 							for _, lr := range realReferrers(al) {
